@@ -1,7 +1,7 @@
 (* C19 — decoding arbitrary bytes terminates with an error or a writable model.  Statements only. *)
 From Coq Require Import String NArith List Bool.
 From RC Require Import lib.Result lib.Bytes model.Layout model.Str model.ChkIo
-  proofs.Layout_proofs proofs.C01_proofs.
+  proofs.Layout_proofs proofs.C01_proofs proofs.C19_proofs.
 Import ListNotations.
 
 (* the model's decoder is a total function and its fuel is adequate: for EVERY byte string the
@@ -15,3 +15,13 @@ Theorem C19_section_decode_terminates :
   forall l fuel bs, wf_l l = true -> length bs < fuel -> decode_l fuel l bs <> Raise OutOfFuel.
 Proof. exact decode_no_oof. Qed.
 Print Assumptions C19_section_decode_terminates.
+
+(* The functional half, for EVERY byte string (bytes_ok: each element is a byte): what the decoder accepts can
+   be written, and the written bytes decode to the very same model.  No well-formedness is assumed: a
+   truncated last section, a size field larger than the file, a fixed-size section that is too long, a
+   ragged record tail the decoder happens to accept, unknown names.  bs' may differ from bs. *)
+Theorem C19_accepted_input_is_writable_and_stable :
+  forall bs secs, bytes_ok bs -> chk_decode bs = Ok secs ->
+    exists bs', chk_encode secs = Ok bs' /\ chk_decode bs' = Ok secs.
+Proof. exact chk_decode_stable. Qed.
+Print Assumptions C19_accepted_input_is_writable_and_stable.
